@@ -42,16 +42,59 @@ class Num:
         return 'Num(%r)' % self.render()
 
 
+class Ph:
+    """The repeater placeholder `$#` (Emmet docs, "Wrap with Abbreviation": the place where the wrapped
+    text goes).  It is not a counter; it stands next to counters, and the statement's counter rule must
+    hold around it.  Value: nothing when no text is given, the text when the text is one string, line i
+    when the nearest `*`-without-count repeater (one copy per non-blank line) is in copy i."""
+    __slots__ = ()
+    at = True                       # a numbering token may follow directly (`$#$`)
+
+    def render(self):
+        return '$#'
+
+    def __repr__(self):
+        return 'Ph'
+
+
+PH = Ph()
+IMPLICIT = '*'                      # El.repeat / Group.repeat: `*` without a count (one copy per text line)
+
+
+class Env:
+    """What a place sees: counter = (i, n) of the nearest repeated unit or None; ph = what `$#` yields
+    here (None: outside every line repeater while the text is a list of lines -- never generated)."""
+    __slots__ = ('counter', 'ph')
+
+    def __init__(self, counter, ph):
+        self.counter = counter
+        self.ph = ph
+
+
 def render_tpl(tpl):
     return ''.join(p if isinstance(p, str) else p.render() for p in tpl)
 
 
-def subst_tpl(tpl, counter):
-    return ''.join(p if isinstance(p, str) else p.value(counter) for p in tpl)
+def subst_tpl(tpl, env):
+    out = []
+    for p in tpl:
+        if isinstance(p, str):
+            out.append(p)
+        elif isinstance(p, Ph):
+            if env.ph is None:
+                raise ValueError('`$#` outside every line repeater with a list of lines: not in the generated class')
+            out.append(env.ph)
+        else:
+            out.append(p.value(env.counter))
+    return ''.join(out)
 
 
 def has_num(tpl):
-    return any(not isinstance(p, str) for p in tpl)
+    return any(isinstance(p, Num) for p in tpl)
+
+
+def has_ph(tpl):
+    return any(isinstance(p, Ph) for p in (tpl or ()))
 
 
 class El:
@@ -62,7 +105,7 @@ class El:
         self.name = name            # template or None (nameless: implicit name)
         self.id = id                # template or None
         self.classes = list(classes)
-        self.attrs = list(attrs)    # (name template, value template, quote '' | '"' | "'")
+        self.attrs = list(attrs)    # (name template, value template, kind): see ATTR_KINDS
         self.text = text            # template or None
         self.repeat = repeat        # None | int
         self.kids = list(kids)      # list of El | Group  (children: written after `>`)
@@ -83,12 +126,55 @@ def render_el(e):
     for c in e.classes:
         s += '.' + render_tpl(c)
     if e.attrs:
-        s += '[' + ' '.join('%s=%s%s%s' % (render_tpl(n), q, render_tpl(v), q) for n, v, q in e.attrs) + ']'
+        s += '[' + ' '.join(render_attr(n, v, q) for n, v, q in e.attrs) + ']'
     if e.text is not None:
         s += '{' + render_tpl(e.text) + '}'
-    if e.repeat is not None:
-        s += '*%d' % e.repeat
+    s += render_repeat(e.repeat)
     return s
+
+
+def render_repeat(rep):
+    if rep is None:
+        return ''
+    return '*' if rep == IMPLICIT else '*%d' % rep
+
+
+# Attribute kinds (third component of El.attrs entries) and what each one looks like in HTML/XML output.
+# Facts hard-coded from the Emmet documentation (docs.emmet.io "Abbreviations syntax": custom attributes
+# `[title="Hello world!" colspan=3]`, single or double quotes, "you don't need to quote values if they don't
+# contain spaces", attributes without a value; the JSX note: `{...}` expression values are output as written,
+# `name={expr}`) and from the attribute docstrings of the AST (boolean `name.` = "name equals value",
+# implied `!name` = "output only if it contains a value"); default profile: double quotes, boolean not compact.
+#   ''      name=value          -> name="value"          '"' / "'"  name="value" -> name="value"
+#   '{'     name={value}        -> name={value}          'bare'     name         -> name=""
+#   'bool'  name.               -> name="name"           '!' + kind: the same, written `!name...`;
+#                                                        '!bare' (`!name`, no value at all) is not output
+ATTR_KINDS = ['', '"', "'", '{', 'bare', 'bool', '!', '!"', "!'", '!{', '!bare']
+ATTR_CLOSE = {'': '', '"': '"', "'": "'", '{': '}'}
+
+
+def render_attr(name, value, kind):
+    n = render_tpl(name)
+    if kind.startswith('!'):
+        n = '!' + n
+        kind = kind[1:]
+    if kind == 'bare':
+        return n
+    if kind == 'bool':
+        return n + '.'
+    return '%s=%s%s%s' % (n, kind, render_tpl(value), ATTR_CLOSE[kind])
+
+
+def expected_attr(name, value, kind, env):
+    """-> (output attribute name, value as parse_markup reports it) or None when the attribute is not output."""
+    n = subst_tpl(name, env)
+    k = kind[1:] if kind.startswith('!') else kind
+    if k == 'bare':
+        return None if kind.startswith('!') else (n, '')
+    if k == 'bool':
+        return (n, n)
+    v = subst_tpl(value, env)
+    return (n, '{' + v + '}' if k == '{' else v)
 
 
 def _render(nodes):
@@ -99,9 +185,7 @@ def _render(nodes):
         last = k == len(nodes) - 1
         depth = 0
         if isinstance(n, Group):
-            s = '(' + _render(n.items)[0] + ')'
-            if n.repeat is not None:
-                s += '*%d' % n.repeat
+            s = '(' + _render(n.items)[0] + ')' + render_repeat(n.repeat)
         else:
             s = render_el(n)
             if n.kids:
@@ -136,43 +220,59 @@ class Budget:
         return self.limit is not None and self.completed >= self.limit
 
 
-def expected(nodes, limit=None, inline=()):
-    """Forest [(name, attrs dict, text, kids)] the statement of C02 prescribes."""
+def clean_lines(text):
+    """Wrapped text given as a list of lines: blank lines do not count, lines are trimmed."""
+    return [l.strip() for l in text if l.strip()]
+
+
+def expected(nodes, limit=None, inline=(), text=None):
+    """Forest [(name, attrs dict, text, kids)] the statement of C02 prescribes.
+    text: None | one string | list of lines (config `text`, what `$#` stands for)."""
     budget = Budget(limit)
-    return _unroll(nodes, None, None, budget, set(inline)), budget.completed
+    lines = clean_lines(text) if isinstance(text, list) else None
+    env = Env(None, None if lines is not None else (text or ''))
+    return _unroll(nodes, env, None, budget, set(inline), lines), budget.completed
 
 
-def _unroll(nodes, counter, parent_name, budget, inline):
+def _unroll(nodes, env, parent_name, budget, inline, lines=None):
     out = []
     for n in nodes:
         if n.repeat is None:
-            out.extend(_once(n, counter, parent_name, budget, inline))
+            out.extend(_once(n, env, parent_name, budget, inline, lines))
         else:
-            total = n.repeat if n.repeat >= 1 else 1      # `*0`: one copy (as the code does it; outside the claim)
+            if n.repeat == IMPLICIT:
+                if lines is None:
+                    raise ValueError('`*` without a count is only generated together with a list of lines')
+                total = len(lines)
+            else:
+                total = n.repeat if n.repeat >= 1 else 1      # `*0`: one copy (as the code does it; outside the claim)
             for i in range(1, total + 1):
-                out.extend(_once(n, (i, total), parent_name, budget, inline))
+                sub = Env((i, total), lines[i - 1] if n.repeat == IMPLICIT else env.ph)
+                out.extend(_once(n, sub, parent_name, budget, inline, lines))
                 if budget.copy_completed():
                     break
     return out
 
 
-def _once(n, counter, parent_name, budget, inline):
+def _once(n, env, parent_name, budget, inline, lines=None):
     if isinstance(n, Group):
-        return _unroll(n.items, counter, parent_name, budget, inline)
+        return _unroll(n.items, env, parent_name, budget, inline, lines)
     if n.name:
-        name = subst_tpl(n.name, counter)
+        name = subst_tpl(n.name, env)
     else:
         p = (parent_name or '').lower()
         name = IMPLICIT_DOC.get(p) or ('span' if p in inline else 'div')
     attrs = {}
     if n.id is not None:
-        attrs['id'] = subst_tpl(n.id, counter)
+        attrs['id'] = subst_tpl(n.id, env)
     if n.classes:
-        attrs['class'] = ' '.join(subst_tpl(c, counter) for c in n.classes)
-    for an, av, _q in n.attrs:
-        attrs[subst_tpl(an, counter)] = subst_tpl(av, counter)
-    text = subst_tpl(n.text, counter) if n.text is not None else ''
-    kids = _unroll(n.kids, counter, name, budget, inline)
+        attrs['class'] = ' '.join(subst_tpl(c, env) for c in n.classes)
+    for an, av, kind in n.attrs:
+        kv = expected_attr(an, av, kind, env)
+        if kv is not None:
+            attrs[kv[0]] = kv[1]
+    text = subst_tpl(n.text, env) if n.text is not None else ''
+    kids = _unroll(n.kids, env, name, budget, inline, lines)
     return [(name, attrs, text, kids)]
 
 
@@ -187,8 +287,9 @@ def names_of(forest):
 
 
 # ---------------------------------------------------------------- observer of the output
-TAG_RE = re.compile(r'<(/?)([^\s<>/"\'=]+)((?:\s+[^\s<>/"\'=]+(?:=(?:"[^"]*"|\'[^\']*\'|[^\s<>"\']+))?)*)\s*(/?)>', re.S)
-ATTR_RE = re.compile(r'([^\s<>/"\'=]+)(?:=(?:"([^"]*)"|\'([^\']*)\'|([^\s<>"\']+)))?', re.S)
+# a value is "..." | '...' | {...} (an expression, reported WITH its braces: `t={x1}` is not `t="x1"`) | bare word
+TAG_RE = re.compile(r'<(/?)([^\s<>/"\'=]+)((?:\s+[^\s<>/"\'=]+(?:=(?:"[^"]*"|\'[^\']*\'|\{[^{}<>]*\}|[^\s<>"\']+))?)*)\s*(/?)>', re.S)
+ATTR_RE = re.compile(r'([^\s<>/"\'=]+)(?:=(?:"([^"]*)"|\'([^\']*)\'|(\{[^{}<>]*\}|[^\s<>"\']+)))?', re.S)
 
 
 def parse_markup(out):
@@ -295,14 +396,16 @@ def rand_word(rng, lo=1, hi=3, alphabet=LETTERS):
     return ''.join(rng.choice(alphabet) for _ in range(rng.randint(lo, hi)))
 
 
-def rand_tpl(rng, head, p_num, inner_space=False):
+def rand_tpl(rng, head, p_num, inner_space=False, p_ph=0.0):
     """Template starting with the literal `head`; every literal that follows a numbering token starts
     with a letter (so that it cannot be read as part of the `@...` modifier); two numbering tokens are
-    adjacent only when the first one carries an `@` part (otherwise the `$` runs would merge)."""
+    adjacent only when the first one carries an `@` part (otherwise the `$` runs would merge; likewise
+    `$` + `$#` would be read as `$$` + `#`).  With p_ph > 0 some of the parts are `$#` placeholders,
+    before, between and after the numbering tokens."""
     tpl = [head]
     k = 0
-    while rng.random() < p_num and k < 3:
-        n = rand_num(rng)
+    while rng.random() < (max(p_num, p_ph) if p_ph else p_num) and k < 3:
+        n = PH if p_ph and rng.random() < p_ph else rand_num(rng)
         prev_is_num = not isinstance(tpl[-1], str)
         if prev_is_num and not tpl[-1].at:
             tpl.append(rand_word(rng, 1, 2))
@@ -317,23 +420,43 @@ def rand_tpl(rng, head, p_num, inner_space=False):
     return tpl
 
 
-def decorate(rng, el, p_num=0.5):
-    """Attach id/classes/attributes/text with numbering to an element."""
+RICH_KINDS = ['', '"', "'", '{', '{', '{', 'bare', 'bool', '!', '!"', "!'", '!{', '!bare']
+EXPR_HEADS = ['v', 'go', 'this.on', 'f("a", ', 'x.y ', "s 'q' ", '']
+
+
+def decorate(rng, el, p_num=0.5, p_ph=0.0, rich=False):
+    """Attach id/classes/attributes/text with numbering to an element.  rich: attribute values of every
+    kind of ATTR_KINDS (expressions, empty and missing values, boolean and implied attributes), up to
+    three attributes; p_ph: `$#` placeholders in classes, attribute values and text."""
     if rng.random() < 0.25:
         el.id = rand_tpl(rng, 'i' + rand_word(rng, 0, 1), p_num)
     for _ in range(rng.choice([0, 0, 1, 1, 2])):
-        el.classes.append(rand_tpl(rng, 'c' + rand_word(rng, 0, 1), p_num))
+        el.classes.append(rand_tpl(rng, 'c' + rand_word(rng, 0, 1), p_num, p_ph=p_ph * 0.5))
     used = set()
-    for _ in range(rng.choice([0, 0, 0, 1, 2])):
+    for _ in range(rng.choice([0, 0, 1, 2, 3] if rich else [0, 0, 0, 1, 2])):
         an = 't' + rand_word(rng, 1, 2)
         if an in used or an in ('id', 'class'):
             continue
         used.add(an)
-        q = rng.choice(['', '"', "'"])
+        q = rng.choice(RICH_KINDS) if rich else rng.choice(['', '"', "'"])
         name_tpl = [an] if rng.random() < 0.8 else [an, rand_num(rng)]
-        el.attrs.append((name_tpl, rand_tpl(rng, 'v' + rand_word(rng, 0, 1), p_num, inner_space=bool(q)), q))
+        kq = q.lstrip('!')
+        if kq in ('bare', 'bool'):
+            val = []
+        elif rich and kq in ('"', "'", '{') and rng.random() < 0.15:
+            val = []                    # written explicitly empty: "" '' {}
+        elif kq == '{':
+            head = rng.choice(EXPR_HEADS)
+            val = rand_tpl(rng, head or 'e', max(p_num, 0.6), inner_space=True, p_ph=p_ph)
+            if head == '':
+                val = val[1:] or [rand_num(rng)]        # the expression starts with the `$` run / `$#`
+            if head.endswith('('):
+                val.append(')')
+        else:
+            val = rand_tpl(rng, 'v' + rand_word(rng, 0, 1), p_num, inner_space=bool(kq), p_ph=p_ph)
+        el.attrs.append((name_tpl, val, q))
     if rng.random() < 0.35:
-        el.text = rand_tpl(rng, 'T' + rand_word(rng, 0, 2), p_num, inner_space=True)
+        el.text = rand_tpl(rng, 'T' + rand_word(rng, 0, 2), p_num, inner_space=True, p_ph=p_ph)
 
 
 def fix_el(el):
@@ -343,7 +466,7 @@ def fix_el(el):
         el.name[-1].at = True
 
 
-def rand_forest(rng, names, budget, depth=0, max_depth=5, rep_max=6, p_num=0.5, top=True):
+def rand_forest(rng, names, budget, depth=0, max_depth=5, rep_max=6, p_num=0.5, top=True, p_ph=0.0, rich=False):
     """Random sibling list with about `budget` written elements; groups and elements may carry *N."""
     out = []
     n = max(1, budget)
@@ -352,28 +475,41 @@ def rand_forest(rng, names, budget, depth=0, max_depth=5, rep_max=6, p_num=0.5, 
         rep = rng.choice([None, None, 1, 2, 2, 3, rng.randint(1, rep_max)])
         if depth < max_depth and n - i >= 1 and rng.random() < 0.3:
             g = rng.randint(1, max(1, min(4, n - i)))
-            out.append(Group(rand_forest(rng, names, g, depth + 1, max_depth, rep_max, p_num, False), repeat=rep))
+            out.append(Group(rand_forest(rng, names, g, depth + 1, max_depth, rep_max, p_num, False, p_ph, rich), repeat=rep))
             i += g
         else:
             nm = rng.choice(names)
             name = rand_tpl(rng, nm, p_num * 0.6) if rng.random() < 0.9 else None
             el = El(name=name, repeat=rep)
-            decorate(rng, el, p_num)
+            decorate(rng, el, p_num, p_ph, rich)
             fix_el(el)
             if el.name is None and not (el.classes or el.id is not None or el.attrs):
                 el.classes.append(['k'])
             i += 1
             if depth < max_depth and i < n and rng.random() < 0.5:
                 k = rng.randint(1, n - i)
-                el.kids = rand_forest(rng, names, k, depth + 1, max_depth, rep_max, p_num, False)
+                el.kids = rand_forest(rng, names, k, depth + 1, max_depth, rep_max, p_num, False, p_ph, rich)
                 i += k
             out.append(el)
     return out
 
 
-def total_repeat_copies(nodes):
-    """Number of copies all repeaters complete when there is no limit."""
-    return expected(nodes, None)[1]
+def total_repeat_copies(nodes, text=None):
+    """Number of copies all repeaters complete when there is no limit (counted without building the forest:
+    a unit written *R completes R copies, and within each of them everything below it once more)."""
+    lines = len(clean_lines(text)) if isinstance(text, list) else None
+
+    def count(ns):
+        t = 0
+        for n in ns:
+            sub = count(n.items if isinstance(n, Group) else n.kids)
+            if n.repeat is None:
+                t += sub
+            else:
+                r = lines if n.repeat == IMPLICIT else max(n.repeat, 1)
+                t += r * (sub + 1)
+        return t
+    return count(nodes)
 
 
 def max_depth_of(nodes):
@@ -382,3 +518,41 @@ def max_depth_of(nodes):
         sub = n.items if isinstance(n, Group) else n.kids
         d = max(d, 1 + max_depth_of(sub))
     return d
+
+
+# ---------------------------------------------------------------- placeholders and line repeaters
+def el_has_ph(el):
+    return any(has_ph(c) for c in el.classes) or any(has_ph(v) for _, v, _ in el.attrs) or has_ph(el.text)
+
+
+def forest_has_ph(nodes):
+    for n in nodes:
+        if isinstance(n, Group):
+            if forest_has_ph(n.items):
+                return True
+        elif el_has_ph(n) or forest_has_ph(n.kids):
+            return True
+    return False
+
+
+def make_line_repeaters(rng, nodes):
+    """For a text given as a list of lines: every element that writes a `$#` gets an enclosing unit
+    (itself, an ancestor element or an enclosing group, the nearer the likelier) turned into a line
+    repeater `*`, so that every `$#` has a nearest line repeater.  -> number of units changed."""
+    changed = [0]
+
+    def walk(ns, path):
+        for n in ns:
+            here = path + [n]
+            if isinstance(n, Group):
+                walk(n.items, here)
+                continue
+            if el_has_ph(n) and not any(u.repeat == IMPLICIT for u in here):
+                k = len(here) - 1
+                while k > 0 and rng.random() < 0.4:
+                    k -= 1
+                here[k].repeat = IMPLICIT
+                changed[0] += 1
+            walk(n.kids, here)
+    walk(nodes, [])
+    return changed[0]
